@@ -234,6 +234,11 @@ func (f *Frame) scanNode(n ast.Node, t *Targets, seen map[*ast.FuncDecl]bool, de
 }
 
 func (f *Frame) scanCallee(fi *FuncInfo, n *ast.CallExpr, t *Targets, seen map[*ast.FuncDecl]bool, depth int) {
+	if vc := f.vc; vc.fi != nil && vc.fi.Aspect != "" && fi.Aspect == "" {
+		if a, ok := fi.Aspects[vc.fi.Aspect]; ok && a.Kind == KContract {
+			fi = a // same substitution as at the call itself
+		}
+	}
 	fn := fi.Obj
 	if fi.Kind == KNone && fn.Pkg() != nil && f.vc.prog.PurePkgs[fn.Pkg().Path()] {
 		return
